@@ -1,6 +1,7 @@
 """C17 - chk2plt carries the checkpoint's interior state into a valid plotfile."""
 import hashlib
 import os
+import shutil
 import random
 import numpy as np
 from harness import core, gen, genchk, diskimg, oracle
@@ -111,13 +112,22 @@ def run_case(seed, big=False):
             refdir = os.path.join(root, 'plt_ref')
             gen.write_plotfile(pf, refdir)
         outp = os.path.join(root, f'converted{k}')
+        # the default output (beside the checkpoint, 'chk' -> 'plt' in its name), the checkpoint spelled with trailing separators
+        r2 = random.Random(seed * 173 + k)
+        default_out = r2.random() < 0.3
+        chk_arg = chkdir + (r2.choice(['', '/', '//']) if default_out else '')
+        if default_out:
+            outp = os.path.join(root, 'plt00005')
+            shutil.rmtree(outp, ignore_errors=True)
+            count(f"default output, checkpoint spelled with {len(chk_arg) - len(chkdir)} trailing separator(s)")
         before = tree_hash(chkdir)
         desc = dict(seed=seed, gradp=gradp, species_reactions=reactions, floor_massfracs=floor, species_from=src,
                     species=c.species, meta=c.meta)
         core.set_policy(rng.choice(['identity', 'reverse', 'random']), seed + k)
-        res = core.outcome(lambda: chk2plt(chkdir, target_plotfile=refdir if src == 'reference' else None,
+        res = core.outcome(lambda: chk2plt(chk_arg, target_plotfile=refdir if src == 'reference' else None,
                                            species=list(c.species) if src == 'list' else [],
-                                           gradp=gradp, species_reactions=reactions, floor_massfracs=floor, pltdir=outp) and None)
+                                           gradp=gradp, species_reactions=reactions, floor_massfracs=floor,
+                                           pltdir=None if default_out else outp) and None)
         core.set_policy('identity', 0)
         out['evals'] += 1
         out['keys'].append(core.khash(seed, k))
@@ -125,6 +135,8 @@ def run_case(seed, big=False):
         iimg = None
         if tree_hash(chkdir) != before:
             bad = 'the conversion modified the checkpoint directory'
+        elif res[0] == 'ok' and default_out and not os.path.isdir(outp):
+            bad = f"nothing was written at the default output {outp} (checkpoint given as {chk_arg!r})"
         elif res[0] != 'ok':
             bad = 'converting a well-formed checkpoint raised: ' + res[1]
         else:
